@@ -121,6 +121,8 @@ def falsify(ctx):
         if i >= len(focus) and i % 10 == 0:
             samples, dict_fields = gen.gen_dict_union(rng)          # dict-keys options: a mapping next to another kind
             inputs = [("Root", samples)]
+        elif i >= len(focus) and i % 10 == 5:
+            inputs, cmps = [("Root", [gen.gen_one_pass_residue(rng)])], []     # merged under the default policy
         try:
             hit = check_input(inputs, cmps, registry, dict_fields)
         except (ZeroDivisionError, stages.TooCostly):
